@@ -458,9 +458,9 @@ func (c *Variant) Equals(obj *Variant) bool {
 		}
 		return true
 	}
-	// Values of other non-comparable types are never equal
+	// Values of other non-comparable types are compared structurally
 	if !reflect.TypeOf(value1).Comparable() || !reflect.TypeOf(value2).Comparable() {
-		return false
+		return reflect.DeepEqual(value1, value2)
 	}
 	return value1 == value2
 }
